@@ -57,7 +57,47 @@ def _rounds(rng, size, n=5):
   return [sorted(rng.sample(range(size), rng.choice([1, 2, 2, 3]))) for _ in range(n)]
 
 
+_DT = [['float32', 'float32', 'float32'], ['int32', 'float16', 'float32'], ['float32', 'bool', 'bfloat16'], ['float16', 'float32', 'int32']]
+
+
 def generate(tier, rng):
+  """The base cases, each additionally given an argument-delivery form (ids as bytes / str, client 0 with the empty id,
+  the cohort as list / tuple), hyper-parameter scalars as float / NumPy scalar / 0-d array, an empty cohort in some
+  histories, other for_each_client backends (thorough), and the direct entry points."""
+  for n, case in enumerate(_generate_base(tier, rng)):
+    k = case['kind']
+    if k != 'ignore':
+      case['ids'] = ['bytes', 'str', 'bytes0', 'str0'][n % 4]
+      case['ctuple'] = n % 2 == 1
+      if n % 4 == 2:
+        case['rounds'] = case['rounds'][:3] + [[]] + case['rounds'][4:]      # a round without any client
+      hp = case['hp']
+      if k == 'agnostic':
+        hp['scal'] = [None, 'np', 'jnp'][hp['W'] % 3]
+        hp['iwform'] = [None, 'tuple', 'np'][hp['nd'] % 3]
+      elif k == 'apfl':
+        hp['scal'] = [None, 'np', 'jnp'][int(hp['coef'] * 2) % 3]
+      elif k == 'mime_lite':
+        hp['scal'] = [None, 'np', 'jnp'][int(hp['clip'] * 16) % 3]
+      if tier != 'quick' and n % 7 in (3, 5):
+        hp['backend'] = 'debug' if n % 7 == 3 else 'pmap'
+    else:
+      case['dtypes'] = _DT[n % 4] if case['hp']['base'] == 'sgd' or n % 2 else _DT[0]
+      case['names_tuple'] = n % 2 == 1
+    yield case
+  # agnostic with domain learning rate exactly 0 (weights must stay put) -- falsy but valid
+  for W in [1, 2]:
+    yield {'kind': 'agnostic', 'hp': {'W': W, 'dlr': 0.0, 'nd': 2, 'bs': BS, 'pbs': 4, 'sopt': 'sgd', 'epochs': 1, 'iw': [0.75, 0.25]},
+           'pop': _pop(rng, 2, 5), 'rounds': _rounds(rng, 5), 'seed': rng.randrange(1000), 'ids': 'bytes', 'ctuple': False}
+  # the functions next to the main path, called directly (eagerly, jitted by the library, and under disable_jit)
+  for i in range({'quick': 12, 'thorough': 60, 'search': 60}[tier]):
+    yield {'kind': 'direct', 'i': i, 'nd': 2 + i % 3, 'w': [rng.randrange(0, 9) for _ in range(4)],
+           'loss': [rng.randrange(0, 17) / 4 for _ in range(4)], 'lr': rng.choice([0.0, 0.0625, 0.5, 2.0]),
+           'd': [rng.randrange(-8, 9) / 4 for _ in range(5)], 'bound': rng.choice([0.0, 0.25, 1.0, 3.0, 64.0]),
+           'K': 1 + i % 3, 'pop': _pop(rng, 2, 4), 'nojit': i % 3 == 2, 'np': i % 2 == 1, 'seed': rng.randrange(1000)}
+
+
+def _generate_base(tier, rng):
   reps = {'quick': 2, 'thorough': 6, 'search': 8}[tier]
   # agnostic: windows x domain learning rates; histories that starve a domain for a whole window
   for W in ([1, 2, 3] if tier == 'quick' else [1, 2, 3, 4]):
@@ -157,12 +197,78 @@ def _finite(tree):
 # ---- running ------------------------------------------------------------------------
 
 def run(case):
-  return {'agnostic': _run_agnostic, 'apfl': _run_apfl, 'hyp_cluster': _run_hyp, 'mime_lite': _run_mime,
-          'ignore': _run_ignore}[case['kind']](case)
+  obs = {'agnostic': _run_agnostic, 'apfl': _run_apfl, 'hyp_cluster': _run_hyp, 'mime_lite': _run_mime,
+         'ignore': _run_ignore, 'direct': _run_direct}[case['kind']](case)
+  if obs.get('err') and 'rounds' in case and 'rounds' in obs and len(obs['rounds']) < len(case['rounds']):
+    obs['err_empty_cohort'] = not case['rounds'][len(obs['rounds'])]
+  return obs
+
+
+def _run_direct(case):
+  """update_domain_weights, tree_clip_by_global_norm and hyp_cluster.maximization_step called directly."""
+  import contextlib
+  import fedjax
+  import jax
+  import jax.numpy as jnp
+  from fedjax.algorithms import agnostic_fed_avg, hyp_cluster
+  from fedjax.core import models as fj_models
+  from fedjax.core import tree_util
+  out = {'err': None}
+  arr = (lambda x: np.asarray(x, np.float32)) if case['np'] else (lambda x: jnp.asarray(x, jnp.float32))
+  ctx = jax.disable_jit() if case['nojit'] else contextlib.nullcontext()
+  try:
+    with ctx:
+      nd = case['nd']
+      w = np.array(case['w'][:nd], np.float64) + (1.0 if sum(case['w'][:nd]) == 0 else 0.0)
+      w = w / w.sum()
+      loss = np.array(case['loss'][:nd], np.float64)
+      w_in = arr(w)
+      before = tiny.snapshot([w_in])
+      r = agnostic_fed_avg.update_domain_weights(w_in, arr(loss), case['lr'], 'eg')
+      out['eg'] = {'w': _f(np.asarray(w_in)), 'e': [math.exp(case['lr'] * float(np.float32(l))) for l in loss], 'w_new': _f(r),
+                   'input_same': tiny.same_snapshot(before, tiny.snapshot([w_in]))}
+      out['none_same'] = _f(agnostic_fed_avg.update_domain_weights(w_in, arr(loss), case['lr'], 'none')) == _f(np.asarray(w_in))
+      try:
+        agnostic_fed_avg.update_domain_weights(w_in, arr(loss), case['lr'], 'EG')
+        out['bad_alg'] = 'returned'
+      except ValueError:
+        out['bad_alg'] = 'ValueError'
+      # clipping a two-leaf tree
+      d = np.array(case['d'], np.float32)
+      tree = {'a': arr(d[:2]), 'b': {'c': arr(d[2:])}}
+      tb = tiny.snapshot(tree)
+      cl = tree_util.tree_clip_by_global_norm(tree, case['bound'])
+      flat = np.concatenate([np.asarray(cl['a'], np.float64), np.asarray(cl['b']['c'], np.float64)])
+      out['clip'] = {'d': _f(d), 'norm': float(np.sqrt(np.sum(d.astype(np.float64) ** 2))), 'res': _f(flat),
+                     'input_same': tiny.same_snapshot(tb, tiny.snapshot(tree))}
+      # maximization step on its own
+      K = case['K']
+      cps = [tiny.init_params(k) for k in range(K)]
+      dss = [tiny.client_dataset(s) for s in case['pop']]
+      ev = tiny.cached(('avg-loss-evaluator',), lambda: fj_models.AverageLossEvaluator(tiny.per_example_loss))
+      clients = [(tiny.cid(i), dd, tiny.client_rng(case['seed'], 0, i)) for i, dd in enumerate(dss)]
+      cb = tiny.snapshot(cps)
+      ids = hyp_cluster.maximization_step(ev, tuple(cps) if case['np'] else cps, tuple(clients) if case['nojit'] else clients,
+                                          fedjax.PaddedBatchHParams(batch_size=4))
+      losses = []
+      for s in case['pop']:
+        x, y, _ = _xy(s)
+        losses.append([float(_losses(_vec(p), x, y).mean()) if len(y) else 0.0 for p in cps])
+      out['max'] = {'assign': [int(np.asarray(ids[tiny.cid(i)])) for i in range(len(dss))], 'losses': losses,
+                    'n': [sum(s['cnt']) for s in case['pop']], 'input_same': tiny.same_snapshot(cb, tiny.snapshot(cps)),
+                    'keys_ok': sorted(ids) == sorted(tiny.cid(i) for i in range(len(dss)))}
+  except Exception as ex:
+    out['err'] = type(ex).__name__ + ': ' + str(ex)[:200]
+  return out
+
+
+def _cid(case, i):
+  return tiny.cid(i, case.get('ids', 'bytes'))
 
 
 def _clients(case, r, dss):
-  return [(tiny.cid(i), dss[i], tiny.client_rng(case['seed'], r, i)) for i in case['rounds'][r]]
+  cl = [(_cid(case, i), dss[i], tiny.client_rng(case['seed'], r, i)) for i in case['rounds'][r]]
+  return tuple(cl) if case.get('ctuple') else cl
 
 
 def _run_agnostic(case):
@@ -240,17 +346,17 @@ def _run_apfl(case):
       # clients included), the generator consumed, between two training rounds
       ev_before = tiny.snapshot(st2)
       ev_conts = tiny.containers(st2)
-      ev_out = list(tiny.apfl_eval()(st2, [(tiny.cid(i), d) for i, d in enumerate(dss)]))
-      ev = {'keys': sorted(int(k[1:]) for k in st2.client_states), 'n': len(ev_out),
+      ev_out = list(tiny.apfl_eval()(st2, [(_cid(case, i), d) for i, d in enumerate(dss)]))
+      ev = {'keys': sorted(tiny.cid_index(k) for k in st2.client_states), 'n': len(ev_out),
             'state_same': tiny.same_snapshot(ev_before, tiny.snapshot(st2)) and not tiny.writes(ev_conts),
             'finite': _finite([m for _, m in ev_out])}
       refs = []
       for i in sel:
         # reference trajectory of the two per-leaf coefficients (leaf b, leaf w)
         x, y, _ = _xy(case['pop'][i])
-        if tiny.cid(i) in prev:
-          v = _vec(prev[tiny.cid(i)].params)
-          al = np.array(_coefs(prev[tiny.cid(i)]), np.float64)
+        if _cid(case, i) in prev:
+          v = _vec(prev[_cid(case, i)].params)
+          al = np.array(_coefs(prev[_cid(case, i)]), np.float64)
         else:
           v, al = w.copy(), np.array([hp['coef'], hp['coef']], np.float64)
         a0 = _f(al)
@@ -266,12 +372,12 @@ def _run_apfl(case):
           gs_w.append(float(ig[1]))
           al = np.clip(al - hp['clr'] * ig, 0, 1)
         refs.append({'i': i, 'a0': a0, 'g_b': gs_b, 'g_w': gs_w, 'ref': _f(al),
-                     'obs': _coefs(st2.client_states[tiny.cid(i)]) if tiny.cid(i) in st2.client_states else None})
+                     'obs': _coefs(st2.client_states[_cid(case, i)]) if _cid(case, i) in st2.client_states else None})
       out['rounds'].append({
-          'keys': sorted(int(k[1:]) for k in st2.client_states), 'participated': sorted(seen),
-          'coefs': {int(k[1:]): _coefs_all(v) for k, v in st2.client_states.items()},
+          'keys': sorted(tiny.cid_index(k) for k in st2.client_states), 'participated': sorted(seen),
+          'coefs': {tiny.cid_index(k): _coefs_all(v) for k, v in st2.client_states.items()},
           'others_same': all(k in st2.client_states and tiny.same_snapshot(prev_snap[k], tiny.snapshot(st2.client_states[k]))
-                             for k in prev if int(k[1:]) not in sel),
+                             for k in prev if tiny.cid_index(k) not in sel),
           'refs': refs, 'finite': _finite(st2), 'eval': ev,
       })
       st = st2
@@ -300,7 +406,7 @@ def _run_hyp(case):
       same_bits = [[tiny.same_snapshot(tiny.snapshot(st.cluster_params[a]), tiny.snapshot(st.cluster_params[b])) for b in range(K)] for a in range(K)]
       before = [(tiny.snapshot(st.cluster_params[k]), tiny.snapshot(st.opt_states[k])) for k in range(K)]
       st2, diag = alg.apply(st, _clients(case, r, dss))
-      assign = [int(np.asarray(diag[tiny.cid(i)]['cluster_id'])) for i in sel]
+      assign = [int(np.asarray(diag[_cid(case, i)]['cluster_id'])) for i in sel]
       losses, clients = [], []
       for i, a in zip(sel, assign):
         x, y, _ = _xy(case['pop'][i])
@@ -338,7 +444,7 @@ def _run_mime(case):
       for i in sel:
         x, y, _ = _xy(case['pop'][i])
         delta = p - _train(p, x, y, hp['clr'], hp['epochs'])
-        d = diag[tiny.cid(i)]
+        d = diag[_cid(case, i)]
         cl.append({'n': len(y), 'delta': _f(delta), 'norm': float(np.sqrt(np.sum(delta ** 2))),
                    'diag_norm': float(np.asarray(d['delta_l2_norm'])),
                    'diag_clipped_norm': float(np.asarray(d['clipped_delta_l2_norm'])) if 'clipped_delta_l2_norm' in d else None})
@@ -352,14 +458,16 @@ def _run_mime(case):
 _IG_KEYS = [('emb', 't', (1, 2)), ('lin', 'b', ()), ('lin', 'w', (2,))]
 
 
-def _ig_tree(vals, scale):
+def _ig_tree(vals, scale, dtypes=None, names=()):
+  """dtypes: per key of _IG_KEYS; only IGNORED leaves take an exotic dtype (the base optimizer never sees them)"""
   import jax.numpy as jnp
   it = iter(vals)
   tree = {}
-  for m, n, shape in _IG_KEYS:
+  for j, (m, n, shape) in enumerate(_IG_KEYS):
     k = int(np.prod(shape)) if shape else 1
     a = np.array([next(it) * scale for _ in range(k)], np.float32).reshape(shape)
-    tree.setdefault(m, {})[n] = jnp.asarray(a)
+    dt = dtypes[j] if dtypes and [m, n] in names else 'float32'
+    tree.setdefault(m, {})[n] = jnp.asarray(a).astype({'bfloat16': jnp.bfloat16}.get(dt, dt))
   return tree
 
 
@@ -383,15 +491,22 @@ def _run_ignore(case):
   hp, names = case['hp'], case['names']
   base = {'sgd': lambda: fedjax.optimizers.sgd(hp['lr']), 'mom': lambda: fedjax.optimizers.sgd(hp['lr'], momentum=0.5),
           'adam': lambda: fedjax.optimizers.adam(hp['lr'])}[hp['base']]()
-  opt = fedjax.optimizers.ignore_grads_haiku(base, [tuple(n) for n in names])
-  params = _ig_tree(case['vals'][0:5], 0.25)
+  nt = [tuple(n) for n in names]
+  opt = fedjax.optimizers.ignore_grads_haiku(base, tuple(nt) if case.get('names_tuple') else nt)
+  dts = case.get('dtypes')
+  params = _ig_tree(case['vals'][0:5], 0.25, dts, names)
   out = {'steps': [], 'err': None}
   try:
     state = opt.init(params)
     rparams = _restrict(params, names)
     rstate = base.init(rparams)
     for s in range(2):
-      grads = _ig_tree(case['vals'][5 * (s + 1):5 * (s + 2)], 0.5)
+      grads = _ig_tree(case['vals'][5 * (s + 1):5 * (s + 2)], 0.5, dts, names)
+      if s == 1:      # another wrapper around the SAME base optimizer object with other names, used in between
+        other = [list(k[:2]) for k in _IG_KEYS if [k[0], k[1]] not in names][:1]
+        opt2 = fedjax.optimizers.ignore_grads_haiku(base, [tuple(n) for n in other])
+        p0 = {m: dict(v) for m, v in _ig_tree(case['vals'][0:5], 0.25).items()}
+        opt2.apply(_ig_tree(case['vals'][5:10], 0.5), opt2.init(p0), p0)
       before = tiny.snapshot(params)
       state2, params2 = opt.apply(grads, state, params)
       rstate, rparams = base.apply(_restrict(grads, names), rstate, rparams)
@@ -415,8 +530,37 @@ def _run_ignore(case):
 def oracle(case, obs):
   k = case['kind']
   if obs['err']:
+    if obs.get('err_empty_cohort'):
+      return [(k + '.empty-cohort-raises', f'{k}: apply() on an empty client selection raised {obs["err"]}')]
     return [(k + '.raises', f'{k}: raised {obs["err"]}')]
+  if k == 'direct':
+    return _or_direct(case, obs)
   return {'agnostic': _or_agnostic, 'apfl': _or_apfl, 'hyp_cluster': _or_hyp, 'mime_lite': _or_mime, 'ignore': _or_ignore}[k](case, obs)
+
+
+def _or_direct(case, obs):
+  out = []
+  eg = obs['eg']
+  w = eg['w_new']
+  if not all(math.isfinite(v) and v >= 0 for v in w) or abs(sum(w) - 1) > 1e-5:
+    out.append(('agnostic.weights-not-simplex', f'update_domain_weights(eg) returned {w}'))
+  raw = [a * b for a, b in zip(eg['w'], eg['e'])]
+  if not _close(w, [v / sum(raw) for v in raw]):
+    out.append(('agnostic.eg-update-wrong', f'update_domain_weights(eg): {w}, expected {[v / sum(raw) for v in raw]}'))
+  if not obs['none_same'] or obs['bad_alg'] != 'ValueError' or not eg['input_same']:
+    out.append(('agnostic.update-domain-weights-contract', "'none' must return the weights, an unknown algorithm must raise ValueError, the input stays"))
+  c = obs['clip']
+  res, d, n, b = np.array(c['res']), np.array(c['d']), c['norm'], case['bound']
+  if not np.all(np.isfinite(res)) or np.sqrt(np.sum(res ** 2)) > b * (1 + 1e-4) + 1e-7 or \
+      not _close(res, d * (b / n if n > b else 1.0)) or not c['input_same']:
+    out.append(('tree_clip.not-clipped', f'tree_clip_by_global_norm({c["d"]}, {b}) = {c["res"]}'))
+  m = obs['max']
+  for a, ls in zip(m['assign'], m['losses']):
+    if not (0 <= a < len(ls)) or ls[a] > min(ls) + TOL * (1 + abs(min(ls))):
+      out.append(('hyp.assignment-not-minimal', f'maximization_step assigned cluster {a}, average losses {ls}'))
+  if not m['input_same'] or not m['keys_ok']:
+    out.append(('hyp.maximization-step-contract', 'maximization_step must return one id per client and leave the cluster params alone'))
+  return out
 
 
 def _or_agnostic(case, obs):
@@ -558,7 +702,19 @@ def encode(case, obs):
     return None
   k = case['kind']
   ins, outs = [], []
-  if k == 'agnostic':
+  if k == 'direct':
+    eg, c, m = obs['eg'], obs['clip'], obs['max']
+    ins.append(f'(IEg {_ql(eg["w"])} {_ql(eg["e"])})')
+    outs.append(f'(OVec {_ql(eg["w_new"])})')
+    if all(math.isfinite(v) for v in c['res']):
+      ins.append(f'(IClipD {_q(case["bound"])} {_ql(c["d"])} {_q(c["norm"])})')
+      outs.append(f'(OVec {_ql(c["res"])})')
+    for a, ls, n in zip(m['assign'], m['losses'], m['n']):
+      srt = sorted(set(ls))
+      if n == 0 or len(srt) == 1 and len(ls) == 1 or (len(srt) == len(ls) and (len(srt) == 1 or srt[1] - srt[0] > 10 * TOL * (1 + abs(srt[0])))):
+        ins.append(f'(IArgmin {_ql(ls)})')
+        outs.append(f'(ONat {a}%nat)')
+  elif k == 'agnostic':
     for ro in obs['rounds']:
       if not all(math.isfinite(v) for v in ro['w_new'] + ro['w_prev']):
         continue
@@ -623,6 +779,8 @@ def nontrivial(case, obs):
   if obs['err']:
     return False
   k = case['kind']
+  if k == 'direct':
+    return obs['clip']['norm'] > case['bound'] or case['lr'] > 0
   if k == 'agnostic':
     return any(0 in ro['cnt'] for ro in obs['rounds'])
   if k == 'apfl':
